@@ -734,6 +734,9 @@ class Node:
                         # already gone; must not end the connection thread
                         self.connection_logger.warning(
                             f"failed to accept a TCP connection: {e}")
+                        # the listening socket stays readable for as long as
+                        # the cause (e.g. no free file descriptors) persists
+                        time.sleep(0.1)
                         continue
                     clientsocket.setblocking(False)
                     self.connection_logger.debug(
@@ -765,6 +768,9 @@ class Node:
                         # already gone; must not end the connection thread
                         self.connection_logger.warning(
                             f"failed to accept an SCTP connection: {e}")
+                        # the listening socket stays readable for as long as
+                        # the cause (e.g. no free file descriptors) persists
+                        time.sleep(0.1)
                         continue
                     clientsocket.setblocking(False)
                     self.connection_logger.debug(
